@@ -50,10 +50,13 @@ ValOK(exp, ev, i) ==
     THEN g[2] = e[2] /\ SubSeq(g, 4, Len(g)) = SubSeq(e, 4, Len(e))
     ELSE g = e
 
-AliasOK(exp, ev, i) ==
+\* a result that must be a new object may still be an existing *immutable* object
+\* of the right value (immutable objects can be shared freely)
+AliasOK(o, exp, ev, i) ==
   \/ ~IsVObj(exp.vals[i])
   \/ exp.alias[i] = "?"
   \/ exp.alias[i] = ev.out.alias[i]
+  \/ exp.alias[i] = "" /\ ev.out.alias[i] \in DOMAIN o /\ ~IsMutable(o[ev.out.alias[i]].c)
 
 \* Name of the first clause of the conformance relation that fails, or "ok".
 Clause(o, op, ev) ==
@@ -85,7 +88,7 @@ Clause(o, op, ev) ==
     [] raised -> "ok"
     [] "vals" \notin exp.free /\ Len(ev.out.vals) # Len(exp.vals) -> "return-count"
     [] "vals" \notin exp.free /\ \E i \in 1..Len(exp.vals) : ~ValOK(exp, ev, i) -> "return-value"
-    [] "vals" \notin exp.free /\ \E i \in 1..Len(exp.vals) : ~AliasOK(exp, ev, i) -> "return-identity"
+    [] "vals" \notin exp.free /\ \E i \in 1..Len(exp.vals) : ~AliasOK(o, exp, ev, i) -> "return-identity"
     [] "upd" \notin exp.free /\ \E id \in DOMAIN o : ~okObj(id) -> "post-state"
     [] "upd" \notin exp.free /\ "vals" \notin exp.free
          /\ PostIds(ev) \ DOMAIN o # {ev.out.ids[i] : i \in fresh} -> "new-objects"
@@ -97,7 +100,9 @@ Next ==
   /\ l <= NEvents
   /\ LET ev == Events[l]
          \* a new program starts from an empty world with default options
-         o == IF ev.tid # tid THEN NoObjs ELSE objs
+         o0 == IF ev.tid # tid THEN NoObjs ELSE objs
+         \* objects the program let go of before this call
+         o == [id \in (DOMAIN o0) \ ToSet(ev.drop) |-> o0[id]]
          op == IF ev.tid # tid THEN DefaultOpts ELSE opts
          cl == Clause(o, op, ev) IN
      /\ IF cl = "ok" THEN TRUE ELSE PrintT(<<"REJECT", ev.tid, ev.seq, cl>>)
